@@ -156,12 +156,37 @@ struct Rec<'i> {
     brk: i64,
     nb: i64,
     structured: bool,
+    over: u64,
 }
 impl<'i> Rec<'i> {
     fn new(base: &'i [u8], brk: i64, structured: bool) -> Self {
-        Rec { base, toks: vec![], evs: vec![], brk, nb: 0, structured }
+        Rec { base, toks: vec![], evs: vec![], brk, nb: 0, structured, over: 0 }
+    }
+    /// callbacks beyond 3 * input length + 64 are counted, not stored (C01 bounds them by a small multiple of
+    /// the input length: a runaway implementation must not exhaust memory before it can be reported), and the
+    /// visitor then answers Break wherever it is asked
+    fn room(&mut self) -> bool {
+        if self.toks.len() as u64 > 3 * self.base.len() as u64 + 64 {
+            self.over += 1;
+            false
+        } else {
+            true
+        }
+    }
+    fn push_tok(&mut self, t: String) {
+        if self.room() {
+            self.toks.push(t);
+        }
+    }
+    fn push_ev(&mut self, e: Ev) {
+        if self.over == 0 {
+            self.evs.push(e);
+        }
     }
     fn flow(&mut self) -> ControlFlow<()> {
+        if self.over > 0 {
+            return ControlFlow::Break(());
+        }
         let r = if self.nb == self.brk { ControlFlow::Break(()) } else { ControlFlow::Continue(()) };
         self.nb += 1;
         r
@@ -172,13 +197,13 @@ impl<'i> Rec<'i> {
             s.push_str(" ev=");
             s.push_str(t);
         }
-        write!(s, " nev={}", self.toks.len()).unwrap();
+        write!(s, " nev={}", self.toks.len() as u64 + self.over).unwrap();
         s
     }
 }
 impl<'i> Visitor for Rec<'i> {
     fn visit_block_header(&mut self, h: &bsl::BlockHeader) -> ControlFlow<()> {
-        self.toks.push(format!(
+        self.push_tok(format!(
             "0,{},{},{},{},{},{}",
             ws(self.base, h.as_ref()),
             h.version() as u32,
@@ -188,7 +213,7 @@ impl<'i> Visitor for Rec<'i> {
             h.nonce()
         ));
         if self.structured {
-            self.evs.push(Ev::Header {
+            self.push_ev(Ev::Header {
                 w: win(self.base, h.as_ref()),
                 version: h.version(),
                 prev: h.prev_blockhash().to_vec(),
@@ -202,15 +227,15 @@ impl<'i> Visitor for Rec<'i> {
         self.flow()
     }
     fn visit_block_begin(&mut self, n: usize) {
-        self.toks.push(format!("1,{}", n));
+        self.push_tok(format!("1,{}", n));
         if self.structured {
-            self.evs.push(Ev::BlockBegin(n as u64));
+            self.push_ev(Ev::BlockBegin(n as u64));
         }
     }
     fn visit_transaction(&mut self, tx: &bsl::Transaction) -> ControlFlow<()> {
         let empty: &[u8] = &[];
         let (a, b, c) = guard((empty, empty, empty), || tx.txid_preimage());
-        self.toks.push(format!(
+        self.push_tok(format!(
             "10,{},{},{},{},{},{},{}",
             ws(self.base, tx.as_ref()),
             guard(u32::MAX, || tx.version() as u32),
@@ -224,7 +249,7 @@ impl<'i> Visitor for Rec<'i> {
             let mut pre = a.to_vec();
             pre.extend_from_slice(b);
             pre.extend_from_slice(c);
-            self.evs.push(Ev::Tx {
+            self.push_ev(Ev::Tx {
                 w: win(self.base, tx.as_ref()),
                 version: tx.version(),
                 locktime: tx.locktime(),
@@ -237,14 +262,14 @@ impl<'i> Visitor for Rec<'i> {
         self.flow()
     }
     fn visit_tx_ins(&mut self, n: usize) {
-        self.toks.push(format!("2,{}", n));
+        self.push_tok(format!("2,{}", n));
         if self.structured {
-            self.evs.push(Ev::TxIns(n as u64));
+            self.push_ev(Ev::TxIns(n as u64));
         }
     }
     fn visit_tx_in(&mut self, vin: usize, t: &bsl::TxIn) -> ControlFlow<()> {
         let base = self.base;
-        self.toks.push(format!(
+        self.push_tok(format!(
             "3,{},{},{},{},{},{},{}",
             vin,
             ws(self.base, t.as_ref()),
@@ -255,7 +280,7 @@ impl<'i> Visitor for Rec<'i> {
             t.sequence()
         ));
         if self.structured {
-            self.evs.push(Ev::TxIn {
+            self.push_ev(Ev::TxIn {
                 i: vin as u64,
                 txid: guard(vec![], || t.prevout().txid().to_vec()),
                 vout: guard(u32::MAX, || t.prevout().vout()),
@@ -266,43 +291,43 @@ impl<'i> Visitor for Rec<'i> {
         self.flow()
     }
     fn visit_tx_outs(&mut self, n: usize) {
-        self.toks.push(format!("4,{}", n));
+        self.push_tok(format!("4,{}", n));
         if self.structured {
-            self.evs.push(Ev::TxOuts(n as u64));
+            self.push_ev(Ev::TxOuts(n as u64));
         }
     }
     fn visit_tx_out(&mut self, vout: usize, t: &bsl::TxOut) -> ControlFlow<()> {
         let base = self.base;
         let spkw = guard(PW.to_string(), || ws(base, t.script_pubkey()));
-        self.toks.push(format!("5,{},{},{},{}", vout, ws(self.base, t.as_ref()), t.value(), spkw));
+        self.push_tok(format!("5,{},{},{},{}", vout, ws(self.base, t.as_ref()), t.value(), spkw));
         if self.structured {
-            self.evs.push(Ev::TxOut { i: vout as u64, value: t.value(), spk: guard(vec![], || t.script_pubkey().to_vec()) });
+            self.push_ev(Ev::TxOut { i: vout as u64, value: t.value(), spk: guard(vec![], || t.script_pubkey().to_vec()) });
         }
         self.flow()
     }
     fn visit_witness(&mut self, vin: usize) -> ControlFlow<()> {
-        self.toks.push(format!("6,{}", vin));
+        self.push_tok(format!("6,{}", vin));
         if self.structured {
-            self.evs.push(Ev::Witness(vin as u64));
+            self.push_ev(Ev::Witness(vin as u64));
         }
         self.flow()
     }
     fn visit_witness_total_element(&mut self, n: usize) {
-        self.toks.push(format!("7,{}", n));
+        self.push_tok(format!("7,{}", n));
         if self.structured {
-            self.evs.push(Ev::WitnessTotal(n as u64));
+            self.push_ev(Ev::WitnessTotal(n as u64));
         }
     }
     fn visit_witness_element(&mut self, i: usize, el: &[u8]) {
-        self.toks.push(format!("8,{},{}", i, ws(self.base, el)));
+        self.push_tok(format!("8,{},{}", i, ws(self.base, el)));
         if self.structured {
-            self.evs.push(Ev::WitnessElem { i: i as u64, el: el.to_vec() });
+            self.push_ev(Ev::WitnessElem { i: i as u64, el: el.to_vec() });
         }
     }
     fn visit_witness_end(&mut self) {
-        self.toks.push("9".to_string());
+        self.push_tok("9".to_string());
         if self.structured {
-            self.evs.push(Ev::WitnessEnd);
+            self.push_ev(Ev::WitnessEnd);
         }
     }
 }
